@@ -1542,14 +1542,20 @@ func (t *Tokenizer) readPunctuation() (models.Token, error) {
 
 			// Check for parameter syntax (@variable)
 			if isIdentifierStart(nextR) {
-				// This is a parameter like @variable, read the identifier part
-				identToken, err := t.readIdentifier()
-				if err != nil {
-					return models.Token{}, err
+				// This is a parameter like @variable: read the name only. (The
+				// identifier reader would merge a following word into it when
+				// the name spells a compound-keyword opener: @order by.)
+				nameStart := t.pos.Index
+				for t.pos.Index < len(t.input) {
+					cr, cs := utf8.DecodeRune(t.input[t.pos.Index:])
+					if !isIdentifierChar(cr) {
+						break
+					}
+					t.pos.AdvanceRune(cr, cs)
 				}
 				return models.Token{
 					Type:  models.TokenTypePlaceholder,
-					Value: "@" + identToken.Value,
+					Value: "@" + string(t.input[nameStart:t.pos.Index]),
 				}, nil
 			}
 		}
